@@ -11,6 +11,11 @@ fn main() {
         usage()
     }
     let prop = args[1].clone();
+    if prop == "--c09-first-use" {
+        // a fresh process whose very first grammar lookups are made by 16 threads at once (see checks/c09.rs)
+        vcheck::checks::c09::first_use_probe();
+        return;
+    }
     let mut tier = match std::env::var("VERIF_TIER").as_deref() {
         Ok("thorough") => Tier::Thorough,
         _ => Tier::Quick,
